@@ -18,5 +18,5 @@ git apply $OUT/patch.diff || { echo PATCH-FAILED; exit 3; }
 echo "--- with the change: existing suite"
 timeout 900 cargo test --workspace --offline --lib --bins 2>&1 | grep -E "^test result" | head -8
 echo "--- with the change: demo"
-timeout 600 cargo test -p $CRATE --test $TESTNAME --offline 2>&1 | grep -E "^test result|panicked|FAILED|error(\[|:)" | head -6
+timeout 600 cargo test -p $CRATE --test $TESTNAME --offline 2>&1 | grep -E "^test result|error(\[|:)" | head -6
 cd /; rm -rf $V/target; git -C /repo worktree remove --force $V
